@@ -37,9 +37,9 @@ var spec = lib.Spec{
 	ID: "C24",
 	Rule: "generated repositories of 1-5 packages from a nested pool (root, a, a/b, a/bc, c: sub-packages and sibling packages sharing a name prefix) with 2-10 targets consuming files as srcs / named srcs / data / named data, as single files or as directories (also nested, also a directory with a sibling sharing its prefix), depending on each other through deps, srcs and data, with require/provide; " +
 		"changed files drawn from consumed files, files below directory sources, files in BUILD-less sub-directories, files of sub-packages, prefix-colliding names, BUILD files and unowned files; " +
-		"for DiffGraphs the after-repository is the before-repository after 1-4 drawn edits (command, test command, label, output, binary flag, add/remove src or data or dep, change provides, add target, remove target, config hash). Levels 0, 1, 2 and -1. " +
+		"for DiffGraphs the after-repository is the before-repository after 1-4 drawn edits (command, test command, label, output, binary flag, add/remove src or data or dep, change provides, add target, remove target, config hash). Levels 0, 1, 2 and -1. About a fifth of the targets carry the label `manual` and two thirds of the cases run with --exclude manual (plz's default): excluded targets need not be reported, but their non-excluded consumers/dependents must be. " +
 		"Oracle: reported ⊇ consumers ∪ changed-or-new definitions (∪ everything if the config differs) and, at level -1, ⊇ their transitive dependents (resolved dependencies, i.e. after require/provide) ∪ the targets whose dependencies resolve differently because a changed provider provides something else. " +
-		"Non-trivial = a changed file is consumed through a directory entry, as data, or lives in a BUILD-less sub-directory of its package (Changes), or some after-target differs from its before-definition and has a dependent that does not itself differ (DiffGraphs); distinct = case JSON",
+		"Non-trivial = a changed file is consumed through a directory entry, as data, or lives in a BUILD-less sub-directory of its package (Changes), or some after-target differs from its before-definition and has a dependent that does not itself differ (DiffGraphs), or a reported dependent is affected only through an excluded target; distinct = case JSON",
 	Assumptions: []string{
 		"states are built in-process through the exported core API (as src/query's own tests do), not by parsing BUILD files; the command-line path (scm diff, re-parse of the before revision) is not exercised",
 		"only inputs a real parse can produce: a target lists files of its own package only (never below a sub-package), tools are never repository files (asp turns a relative tool path into a PATH lookup), no subincludes",
@@ -81,6 +81,9 @@ type Case struct {
 	Before Repo
 	After  *Repo `json:",omitempty"`
 	Files  []string
+	// Exclude holds label filters given with --exclude (plz excludes `manual` by default); targets
+	// carrying one are never reported themselves, but their dependents still are.
+	Exclude []string `json:",omitempty"`
 }
 
 func (r *Repo) index() map[string]int {
@@ -239,13 +242,14 @@ func (r *Repo) consumers(file string) []consumption {
 
 var states [2]*core.BuildState
 
-func install(r *Repo, slot int) (*core.BuildState, error) {
+func install(r *Repo, slot int, exclude []string) (*core.BuildState, error) {
 	if states[slot] == nil {
 		states[slot] = core.NewDefaultBuildState()
 	}
 	st := states[slot]
 	st.Graph = core.NewGraph()
 	st.Hashes.Config = []byte(r.Config)
+	st.SetIncludeAndExclude(nil, exclude)
 	pkgs := map[string]*core.Package{}
 	for _, p := range r.Pkgs {
 		pkgs[p] = core.NewPackage(p)
@@ -331,8 +335,21 @@ func run(c Case, o *lib.Obs) error {
 			return fmt.Errorf("malformed case: file %q", f)
 		}
 	}
+	for _, e := range c.Exclude {
+		if e == "" || strings.ContainsAny(e, ",/:") {
+			return fmt.Errorf("malformed case: exclude %q", e)
+		}
+	}
 	idx := cur.index()
 	n := len(cur.Targets)
+	excluded := func(i int) bool {
+		for _, l := range cur.Targets[i].Labels {
+			if has(c.Exclude, l) {
+				return true
+			}
+		}
+		return false
+	}
 
 	// ---- reference ------------------------------------------------------------------------------
 	direct := map[int]string{} // target -> why
@@ -432,20 +449,49 @@ func run(c Case, o *lib.Obs) error {
 	o.LabelIf(len(closure) > len(direct), "has_unchanged_dependents")
 	o.LabelIf(c.After != nil && c.Before.Config != cur.Config, "config_changed")
 	o.LabelIf(redirected, "provider_change_redirects_a_dependent")
+	throughExcluded := false
+	for i := range closure {
+		if _, isDirect := direct[i]; !isDirect && !excluded(i) {
+			// would i still be reached if excluded seeds were dropped?
+			reach := map[int]bool{}
+			var st []int
+			for j := range direct {
+				if !excluded(j) {
+					reach[j] = true
+					st = append(st, j)
+				}
+			}
+			for len(st) > 0 {
+				v := st[len(st)-1]
+				st = st[:len(st)-1]
+				for _, u := range rdeps[v] {
+					if !reach[u] {
+						reach[u] = true
+						st = append(st, u)
+					}
+				}
+			}
+			if !reach[i] {
+				throughExcluded = true
+			}
+		}
+	}
+	o.LabelIf(len(c.Exclude) > 0, "exclude_filter")
+	o.LabelIf(throughExcluded, "dependent_affected_only_through_excluded_target")
 	if c.After == nil {
-		o.NonTrivial(viaDir || viaData || buildless)
+		o.NonTrivial(viaDir || viaData || buildless || throughExcluded)
 	} else {
-		o.NonTrivial(len(defChanged) > 0 && unchangedDependent)
+		o.NonTrivial((len(defChanged) > 0 && unchangedDependent) || throughExcluded)
 	}
 
 	// ---- the real thing -------------------------------------------------------------------------
-	after, err := install(cur, 1)
+	after, err := install(cur, 1, c.Exclude)
 	if err != nil {
 		return fmt.Errorf("harness: %v", err)
 	}
 	var before *core.BuildState
 	if c.After != nil {
-		if before, err = install(&c.Before, 0); err != nil {
+		if before, err = install(&c.Before, 0, c.Exclude); err != nil {
 			return fmt.Errorf("harness: %v", err)
 		}
 	}
@@ -469,7 +515,7 @@ func run(c Case, o *lib.Obs) error {
 		}
 		var missing []string
 		for i, why := range want {
-			if l := cur.Targets[i].Label(); !gotSet[l] {
+			if l := cur.Targets[i].Label(); !gotSet[l] && !excluded(i) {
 				missing = append(missing, l+" ("+why+")")
 			}
 		}
@@ -477,7 +523,7 @@ func run(c Case, o *lib.Obs) error {
 			sort.Strings(missing)
 			class := "missed-consumer"
 			for i := range want {
-				if l := cur.Targets[i].Label(); !gotSet[l] {
+				if l := cur.Targets[i].Label(); !gotSet[l] && !excluded(i) {
 					if _, isDirect := direct[i]; !isDirect {
 						class = "missed-dependent"
 					} else if defChanged[i] && !strings.HasPrefix(direct[i], "consumes") {
@@ -572,6 +618,9 @@ func genRepo(t *rapid.T) Repo {
 			if e := drawEntries("ndata", 1); len(e) > 0 {
 				tg.NamedData = map[string][]string{"fixtures": e}
 			}
+		}
+		if rapid.IntRange(0, 4).Draw(t, "manual") == 0 {
+			tg.Labels = append(tg.Labels, "manual")
 		}
 		if rapid.IntRange(0, 3).Draw(t, "isTest") == 0 {
 			tg.TestCmd = "test0"
@@ -757,6 +806,14 @@ func gen(t *rapid.T) Case {
 	return c
 }
 
+func genCase(t *rapid.T) Case {
+	c := gen(t)
+	if rapid.IntRange(0, 2).Draw(t, "exclude") > 0 { // plz excludes manual targets unless told otherwise
+		c.Exclude = []string{"manual"}
+	}
+	return c
+}
+
 func TestC24(t *testing.T) {
-	lib.Check(t, spec, lib.Scale(4000, 100000), gen, run)
+	lib.Check(t, spec, lib.Scale(4000, 100000), genCase, run)
 }
